@@ -47,13 +47,20 @@ func (c *cpuCase) normalise() {
 
 // mkRaw builds an implementation start state from an architectural one plus a valuation
 // of the stale copies.
+// cpuDirtIRQ: set by the checks that have no reference model in the loop (C02, C08, C12): their dirty start
+// states carry an OnWDM observer that calls TriggerIRQ during the Step.
+var cpuDirtIRQ bool
+
 func mkRaw(s ref65816.State, stale int, intr byte) cpuh.Raw {
 	r := cpuh.Raw{PC: s.PC, SP: s.S, RD: s.D, RDBR: s.DBR, RK: s.K, P: s.P, Interrupt: intr, Stopped: s.Stopped}
 	if s.E {
 		r.E = 1
 	}
 	if stale != 0 {
-		r.Dirt = 1                   // the stale-copy valuations also start from junk in the non-architectural fields
+		r.Dirt = 1 // the stale-copy valuations also start from junk in the non-architectural fields
+		if cpuDirtIRQ {
+			r.Dirt = 2 // ... and with an OnWDM observer that raises an IRQ while the Step is running
+		}
 		r.AllCycles = ^uint64(0) - 2 // ... and from a running cycle total that is about to wrap
 	}
 	st16 := []uint16{0, 0xFFFF, 0xA5A5}[stale]
